@@ -406,7 +406,8 @@ def _diffuse(ck: Checker, prog: Program):
     from ..astutil import bind_call
     b = bind_call(c, ["frequency", "amplitude", "meta"])
     R = Resolver(prog, f)
-    psd = "_rpds_single_component([record.{c} for record in records], settings)"
+    from .procmodel import psd_source
+    psd = psd_source(prog)
     smooth = ("SMOOTHING_OPERATORS[settings.smoothing['operator']](np.fft.rfftfreq(settings.fft_settings['n'], records[0].vt.dt_in_seconds), "
               f"np.array([{psd.format(c='ns')} + {psd.format(c='ew')}, {psd.format(c='vt')}]), {FCS_SRC}, settings.smoothing['bandwidth'])")
     want = canon(R.value(_parse(f"np.sqrt({smooth}[0] / {smooth}[1])"), ret))
